@@ -35,6 +35,7 @@ type Opts struct {
 	Big         bool // amounts beyond 64 bit
 	SharedTx    bool // try to put the same transaction on sibling branches
 	Linear      bool // no forks
+	KVShare     int  // percentage of contract (key) transactions; 0 = default 40
 }
 
 // DefaultOpts is the mix used by C01-style histories.
@@ -275,7 +276,11 @@ func (t *Tree) nextNonce() string {
 // later transactions of the same block do not reuse them.
 func (t *Tree) GenTx(rng *rand.Rand, a *sn.Node) (*pb.Transaction, string, error) {
 	o := t.Opts
-	if o.KV && rng.Intn(5) < 2 {
+	share := o.KVShare
+	if share == 0 {
+		share = 40
+	}
+	if o.KV && rng.Intn(100) < share {
 		return t.genKV(rng, a)
 	}
 	return t.genTransfer(rng, a, nil, nil, nil)
